@@ -157,7 +157,10 @@ CLAIMED = {
         category="proof",
         text="Closed theorems: every lookup the traversal performs (dictionaries, children, wires, predecessors) is by unique name and "
              "invariant under permutation of the listing; substitution and evaluate are invariant under permutation of the "
-             "dictionary. Partial: independence from the choice among topological processing orders and order-insensitivity of "
+             "dictionary; local variables compile to the same values in any dependency-respecting order; and (InputsOrderFacts, "
+             "go_sim, any carrier whose expression step reads its dictionary through lookups - proved for the compile model and the "
+             "denotation) two listings of the same inputs dictionary compile a routine to the same tree, all children identically. "
+             "Partial: independence from the choice among topological processing orders and order-insensitivity of "
              "the preprocessing stages are exercised by the hier-permute stream (all list-valued fields permuted at every level; "
              "thorough: all child permutations up to 4 children) on the real code.",
         design_ref="DESIGN.md section 5 C09",
